@@ -33,7 +33,7 @@ Definition holds_C05 (c : case) : bool :=
   match outcome c with OPanic => false | _ => true end &&
   (alloc c <=? alloc_a * plen c + alloc_b) && (millis c <=? time_limit_ms).
 
-(* Known finding 1: config.TagsUpdate pre-sizes its maps with the untrusted count *)
+(* Known finding 1: config.TagsUpdate pre-sizes its maps with the untrusted count (finding 2 below) *)
 Definition judge (c : case) : verdict :=
   if holds_C05 c then
     match body c, find_entry (tname c) packets with
@@ -50,4 +50,8 @@ Definition judge (c : case) : verdict :=
   else if String.eqb (tname c) "config.TagsUpdate" && negb (alloc c <=? alloc_a * plen c + alloc_b)
           && match outcome c with OPanic => false | _ => true end && (millis c <=? time_limit_ms)
   then VKnown 1
+  (* Known finding 2: AvailableCommands.Decode is quadratic in the node count (redirect chains in random order) *)
+  else if String.eqb (tname c) "packet.AvailableCommands" && (500000 <=? plen c) && negb (millis c <=? time_limit_ms)
+          && match outcome c with OPanic => false | _ => true end && (alloc c <=? alloc_a * plen c + alloc_b)
+  then VKnown 2
   else VViolation.
